@@ -48,7 +48,21 @@
                                 with that object as the frame's closure.
      Examples on the compile output of the three witness programs of findings/C06 (Cao.VmUpvalueWitness).
 
-   Still only STATED (not proved): the refinement between the two halves,
+   The refinement between the two halves, FIRST STEP (last part of this file; C06SimDefs.v, C06SimVm.v, C06SimVm2.v,
+   C06SimVm3.v): the representation relation [rep] between the cells of the reference store and the VM's stack slots /
+   upvalue objects (a cell lives in the slot while its scope is alive, in the upvalue object after CloseUpvalue /
+   Return), and its preservation by single instructions, each doing what RefSem does to the designated cell:
+     C06_rep_read_upvalue, C06_rep_write_upvalue   ReadUpvalue / SetUpvalue, open and closed
+     C06_rep_read_local, C06_rep_write_local       ReadLocalVar / SetLocalVar of the declaring function
+     C06_rep_close_upvalue, C06_rep_return         scope end: captured cells move into the upvalue objects, every
+                                                   upvalue address of every closure keeps denoting its cell
+     C06_rep_register_upvalue                      the capture: the new upvalue address denotes the slot's cell, shared
+     C06_ex_closure_sim_witness                    one program (a write through one closure read by its sibling after
+                                                   the scope exit) compiled, run and compared with eval_program by
+                                                   computation; C06_ex_rep_*_hyps: the hypotheses on its run.
+
+   Still only STATED (not proved): the whole-program refinement (the induction that chains the steps above along
+   compiled code, C06_closure_sim_f1),
 
      Definition cell_rel (R : cell -> upvalue) (s : RefSem.state) (vm : Vm.state) : Prop :=
        forall c u, R c = u ->
@@ -738,3 +752,283 @@ Example C06_ex_vm_S2_captures_the_inner_variable :
   open_list st [(4%N, 13)] /\ closures_of (Vm.st_heap st) = [(3%N, [4%N])] /\ sraw_get st 13 = VInt 2 /\
   upvalues_of (Vm.st_heap (snd (vm_run s2_program 2000))) = [(4%N, mkUp None (VInt 2) None)].
 Proof. split; [apply chain_of_sound with (fuel := 5)|]; vm_compute; repeat split; reflexivity. Qed.
+
+(* ========================================================================================== *)
+(* The refinement between the two halves: the representation relation and its preservation    *)
+(* ========================================================================================== *)
+(* C06SimDefs: a reference cell (RefSem.st_cells) lives in a stack slot ([LSlot i]) while the scope that declared the
+   variable is alive - an open upvalue object that points at slot i denotes the same cell - and in a closed upvalue
+   object ([LUp a]) after CloseUpvalue / Return.  [rep K R top cells vm]: every cell that R maps exists in the
+   reference store and its place in vm holds the VM image of its value ([vrel]: nil, integers, closure values
+   through K), no two cells share a place, slot cells are below [top] <= height of the value stack.
+   [up_cell R vm ua c]: the upvalue object ua denotes the cell c (R c is the slot it points at, or the object
+   itself once closed).  The theorems say, for EVERY VM state that represents a reference store: the instruction
+   does to the VM what the reference semantics does to the cell the variable designates, and the relation holds
+   afterwards - the one-step lemmas of closure_sim for variable access, capture and scope end.  (Proofs:
+   C06SimVm.v, C06SimVm2.v, C06SimVm3.v, on top of the C06_vm_* theorems above.)
+   NOT proved (still open): the induction over the reference evaluation that chains these steps along the code the
+   compiler emits for a fragment of programs (C06_closure_sim_f1: needs the compile shape of Closure cards - Goto
+   over the body, Closure, CopyLast / RegisterUpvalue per captured name, CloseUpvalue for captured locals in
+   scope_end - and the frame discipline of DynamicCall); C06_ex_closure_sim_witness below is one program on which
+   compiler + VM and the reference semantics are compared end to end by computation. *)
+From Cao Require Import C06SimDefs C06SimVm C06SimVm2 C06SimVm3 C06SimWitness C06SimWitnessProofs.
+From Coq Require Import Lia.
+
+(* ReadUpvalue: the closure reads the captured variable - the value of the cell the upvalue denotes is pushed,
+   through an open upvalue (the slot of the declaring scope) as through a closed one (the object's own value) *)
+Theorem C06_rep_read_upvalue :
+  forall (F : fops) (bld : build) (P : program) (reenter : N -> Vm.state -> rres) (K : clomap) (R : cellmap)
+         ip0 s idx ua u top cells c,
+    opcode_at P ip0 = 44%N -> op_u32 P (ip0 + 1) = Some idx -> upvalue_of s idx ua u ->
+    rep K R top cells s -> up_cell R s ua c -> S (scount s) < cap s ->
+    exists v w s', nth_error cells c = Some v /\ vrel K v w /\
+      step F bld P reenter ip0 s = SNext (ip0 + 1 + 4) s' /\ spush s w = Some s' /\ rep K R top cells s'.
+Proof. exact rep_read_upvalue. Qed.
+Print Assumptions C06_rep_read_upvalue.
+
+(* SetUpvalue: exactly the cell the upvalue denotes is assigned (RefSem.upd on the cell store): in the slot while
+   open - where the declaring function and every sibling closure read it -, in the object once closed *)
+Theorem C06_rep_write_upvalue :
+  forall (F : fops) (bld : build) (P : program) (reenter : N -> Vm.state -> rres) (K : clomap) (R : cellmap)
+         ip0 s s1 wv idx ua u top cells c v,
+    opcode_at P ip0 = 43%N -> op_u32 P (ip0 + 1) = Some idx -> spop s = (s1, wv) -> upvalue_of s1 idx ua u ->
+    rep K R top cells s -> top < scount s -> scount s < cap s -> up_cell R s ua c -> vrel K v wv ->
+    exists s', step F bld P reenter ip0 s = SNext (ip0 + 1 + 4) s' /\ scount s' = scount s - 1 /\
+      rep K R top (RefSem.upd cells c v) s'.
+Proof. exact rep_write_upvalue. Qed.
+Print Assumptions C06_rep_write_upvalue.
+
+(* ReadLocalVar / SetLocalVar of the declaring function, scope alive: the same cell, in the slot *)
+Theorem C06_rep_read_local :
+  forall (F : fops) (bld : build) (P : program) (reenter : N -> Vm.state -> rres) (K : clomap) (R : cellmap)
+         ip0 s hd off top cells c,
+    opcode_at P ip0 = 20%N -> op_u32 P (ip0 + 1) = Some hd -> top_offset s = Some off ->
+    rep K R top cells s -> R c = Some (LSlot (off + N.to_nat hd)) -> S (scount s) < cap s ->
+    exists v w s', nth_error cells c = Some v /\ vrel K v w /\
+      step F bld P reenter ip0 s = SNext (ip0 + 1 + 4) s' /\ spush s w = Some s' /\ rep K R top cells s'.
+Proof. exact rep_read_local. Qed.
+Print Assumptions C06_rep_read_local.
+
+Theorem C06_rep_write_local :
+  forall (F : fops) (bld : build) (P : program) (reenter : N -> Vm.state -> rres) (K : clomap) (R : cellmap)
+         ip0 s hd off top cells c v,
+    opcode_at P ip0 = 19%N -> op_u32 P (ip0 + 1) = Some hd -> top_offset s = Some off ->
+    rep K R top cells s -> top < scount s -> scount s < cap s ->
+    R c = Some (LSlot (off + N.to_nat hd)) -> vrel K v (sraw_get s (scount s - 1)) ->
+    exists s', step F bld P reenter ip0 s = SNext (ip0 + 1 + 4) s' /\ scount s' = scount s - 1 /\
+      rep K R top (RefSem.upd cells c v) s'.
+Proof. exact rep_write_local. Qed.
+Print Assumptions C06_rep_write_local.
+
+(* CloseUpvalue k (what scope_end emits for a captured local): the cells of the slots >= offset + k that are
+   captured move into the upvalue objects ([close_map]; a cell of such a slot that nothing captured becomes
+   unreachable), with their values; every upvalue address denotes the cell it denoted before - the variable outlives
+   its scope and sibling closures still share it -; closure objects are untouched; nothing is popped *)
+Theorem C06_rep_close_upvalue :
+  forall (F : fops) (bld : build) (P : program) (reenter : N -> Vm.state -> rres) (K : clomap) (R : cellmap)
+         ip0 s idx off l top cells,
+    opcode_at P ip0 = 46%N -> op_u32 P (ip0 + 1) = Some idx -> top_offset s = Some off ->
+    vm_ok s -> open_list s l -> rep K R top cells s ->
+    let newtop := off + N.to_nat idx in
+    newtop <= top ->
+    exists s', step F bld P reenter ip0 s = SNext (ip0 + 1 + 4) s' /\ vm_ok s' /\ open_list s' (kept_by newtop l) /\
+      st_stack s' = st_stack s /\ st_calls s' = st_calls s /\ Vm.st_globals s' = Vm.st_globals s /\
+      rep K (close_map newtop l R) newtop cells s' /\
+      (forall ua c, up_cell R s ua c -> up_cell (close_map newtop l R) s' ua c) /\
+      (forall a o, hget (Vm.st_heap s) a = Some o -> (forall u, o <> OUp u) -> hget (Vm.st_heap s') a = Some o).
+Proof. exact rep_close_upvalue. Qed.
+Print Assumptions C06_rep_close_upvalue.
+
+(* RegisterUpvalue index, local - the capture: the closure under construction (the popped copy) gets one more upvalue
+   address, and that address denotes the cell of local [index] of the running frame (capture by reference; the
+   open upvalue of the slot is reused when a sibling captured the variable before, else a new one is linked into the
+   list); the relation and the denotation of every other upvalue address are kept, no other object changes *)
+Theorem C06_rep_register_upvalue :
+  forall (F : fops) (bld : build) (P : program) (reenter : N -> Vm.state -> rres) (K : clomap) (R : cellmap)
+         ip0 s index is_local s1 ca ch car cups off l top cells c,
+    opcode_at P ip0 = 45%N ->
+    read_le (p_code P) (ip0 + 1) 1 = Some index -> read_le (p_code P) (ip0 + 1 + 1) 1 = Some is_local ->
+    is_local <> 0%N ->
+    spop s = (s1, VObj ca) -> hget (Vm.st_heap s1) ca = Some (OClo ch car cups) ->
+    top_offset s1 = Some off ->
+    vm_ok s -> open_list s l -> rep K R top cells s -> top < scount s ->
+    R c = Some (LSlot (off + N.to_nat index)) ->
+    exists s' ua l', step F bld P reenter ip0 s = SNext (ip0 + 1 + 2) s' /\ vm_ok s' /\ open_list s' l' /\
+      (forall x, In x l -> In x l') /\
+      scount s' = scount s - 1 /\ st_calls s' = st_calls s1 /\
+      hget (Vm.st_heap s') ca = Some (OClo ch car (cups ++ [ua])) /\ up_cell R s' ua c /\
+      rep K R top cells s' /\
+      (forall ua' c', up_cell R s ua' c' -> up_cell R s' ua' c') /\
+      (forall a o, a <> ca -> hget (Vm.st_heap s) a = Some o -> (forall u, o <> OUp u) -> hget (Vm.st_heap s') a = Some o).
+Proof. exact rep_register_upvalue. Qed.
+Print Assumptions C06_rep_register_upvalue.
+
+(* Return: the frame's slots go away, captured cells move into the upvalue objects as for CloseUpvalue, the caller
+   finds the return value on top of its part of the stack *)
+Theorem C06_rep_return :
+  forall (F : fops) (bld : build) (P : program) (reenter : N -> Vm.state -> rres) (K : clomap) (R : cellmap)
+         ip0 s fr prev rest l top cells,
+    opcode_at P ip0 = 22%N -> st_calls s = fr :: prev :: rest ->
+    vm_ok s -> open_list s l -> rep K R top cells s -> top < scount s ->
+    let off := N.to_nat (fr_off fr) in
+    off <= top ->
+    exists s', step F bld P reenter ip0 s = SNext (fr_dst prev) s' /\ vm_ok s' /\ open_list s' (kept_by off l) /\
+      st_calls s' = prev :: rest /\ Vm.st_globals s' = Vm.st_globals s /\
+      scount s' = S off /\ sraw_get s' off = sraw_get s (scount s - 1) /\
+      (forall i, i < off -> sraw_get s' i = sraw_get s i) /\
+      rep K (close_map off l R) off cells s' /\
+      (forall ua c, up_cell R s ua c -> up_cell (close_map off l R) s' ua c) /\
+      (forall a o, hget (Vm.st_heap s) a = Some o -> (forall u, o <> OUp u) -> hget (Vm.st_heap s') a = Some o).
+Proof. exact rep_return. Qed.
+Print Assumptions C06_rep_return.
+
+(* ---- the witness program (C06SimWitness.sim_example): end to end, and the hypotheses above on its run ---- *)
+(* repeat 1 { x := 5; inc := fn(){ x := x + 1 }; get := fn(){ out := x }; r1 := inc(); r2 := get(); x := x + 10;
+              seen_open := out };  r3 := inc(); r4 := get()
+   compiled by Compiler.compile and run on the VM model, against RefSem.eval_program: the same outcome and the same
+   globals; out = 17 is main's write (+10) and inc's write AFTER the scope of x has ended, read by the sibling get;
+   at the end both closure objects hold the one upvalue object, closed, with 17 *)
+Example C06_ex_closure_sim_witness :
+  match sim_compiled, eval_program 300 sim_example [] with
+  | Some B, PObs o =>
+      (ob_kind o, ob_globals o) =
+        (KOk, [(ws "inc", TrFn); (ws "get", TrFn); (ws "r1", TrNil); (ws "out", TrInt 17); (ws "r2", TrNil);
+               (ws "seen_open", TrInt 6); (ws "r3", TrNil); (ws "r4", TrNil)]) /\
+      let r := Vm.run wnofloat Debug 300 sim_program fresh_state in
+      fst r = OOk /\
+      map (fun n => Vm.read_var_by_name sim_program (snd r) (ws n)) ["out"; "seen_open"; "r4"]%string
+        = [Some (VInt 17); Some (VInt 6); Some VNil] /\
+      closures_of (Vm.st_heap (snd r)) = [(0%N, [1%N]); (2%N, [1%N])] /\
+      upvalues_of (Vm.st_heap (snd r)) = [(1%N, mkUp None (VInt 17) None)]
+  | _, _ => False
+  end.
+Proof. vm_compute. repeat split; reflexivity. Qed.
+
+(* the representation on that run: the one cell of x (cell 0 of the reference store) lives in slot 2 while the
+   Repeat body runs, in the upvalue object 1 afterwards; no closure value is stored in a cell *)
+Definition K_wit : clomap := fun _ => None.
+Definition R_open : cellmap := fun c => match c with 0 => Some (LSlot 2) | _ => None end.
+Definition R_closed : cellmap := fun c => match c with 0 => Some (LUp 1%N) | _ => None end.
+
+Ltac rep_wit :=
+  constructor;
+  [ intros [|c] l H; cbn in H; [injection H as <-|discriminate]; eexists; (split; [reflexivity|]);
+    vm_compute; first [constructor | (do 2 eexists; split; [reflexivity|constructor])]
+  | intros [|c] [|c'] l H1 H2; cbn in H1, H2; try discriminate; reflexivity
+  | intros [|c] i H; cbn in H; [first [injection H as <-; lia | discriminate] | discriminate]
+  | vm_compute; lia ].
+Ltac upv_wit := do 6 eexists; do 4 (split; [vm_compute; reflexivity|]); vm_compute; reflexivity.
+
+(* instruction 66 of the run is get's ReadUpvalue after the scope exit (closed upvalue, value 17 written by the
+   sibling inc); instruction 32 the same ReadUpvalue while x is alive (open upvalue of slot 2, value 6) *)
+Example C06_ex_rep_read_upvalue_hyps :
+  (opcode_at sim_program (sim_ip 66) = 44%N /\ op_u32 sim_program (sim_ip 66 + 1) = Some 0%N /\
+   upvalue_of (sim_st 66) 0 1 (mkUp None (VInt 17) None) /\
+   rep K_wit R_closed 0 [RefSem.VInt 17] (sim_st 66) /\ up_cell R_closed (sim_st 66) 1 0 /\
+   S (scount (sim_st 66)) < cap (sim_st 66)) /\
+  (opcode_at sim_program (sim_ip 32) = 44%N /\ op_u32 sim_program (sim_ip 32 + 1) = Some 0%N /\
+   upvalue_of (sim_st 32) 0 1 (mkUp (Some 2) VNil None) /\
+   rep K_wit R_open 3 [RefSem.VInt 6] (sim_st 32) /\ up_cell R_open (sim_st 32) 1 0 /\
+   S (scount (sim_st 32)) < cap (sim_st 32)).
+Proof.
+  split.
+  - split; [vm_compute; reflexivity|]. split; [vm_compute; reflexivity|]. split; [upv_wit|]. split; [rep_wit|].
+    split; [eexists; split; vm_compute; reflexivity | vm_compute; lia].
+  - split; [vm_compute; reflexivity|]. split; [vm_compute; reflexivity|]. split; [upv_wit|]. split; [rep_wit|].
+    split; [eexists; split; vm_compute; reflexivity | vm_compute; lia].
+Qed.
+
+(* instruction 60: inc's SetUpvalue after the scope exit (closed; 16 -> 17); instruction 26: the same while x is
+   alive (open; 5 -> 6) *)
+Example C06_ex_rep_write_upvalue_hyps :
+  (exists s1, opcode_at sim_program (sim_ip 60) = 43%N /\ op_u32 sim_program (sim_ip 60 + 1) = Some 0%N /\
+     spop (sim_st 60) = (s1, VInt 17) /\ upvalue_of s1 0 1 (mkUp None (VInt 16) None) /\
+     rep K_wit R_closed 0 [RefSem.VInt 16] (sim_st 60) /\ 0 < scount (sim_st 60) /\
+     scount (sim_st 60) < cap (sim_st 60) /\ up_cell R_closed (sim_st 60) 1 0 /\ vrel K_wit (RefSem.VInt 17) (VInt 17)) /\
+  (exists s1, opcode_at sim_program (sim_ip 26) = 43%N /\ op_u32 sim_program (sim_ip 26 + 1) = Some 0%N /\
+     spop (sim_st 26) = (s1, VInt 6) /\ upvalue_of s1 0 1 (mkUp (Some 2) VNil None) /\
+     rep K_wit R_open 3 [RefSem.VInt 5] (sim_st 26) /\ 3 < scount (sim_st 26) /\
+     scount (sim_st 26) < cap (sim_st 26) /\ up_cell R_open (sim_st 26) 1 0 /\ vrel K_wit (RefSem.VInt 6) (VInt 6)).
+Proof.
+  split; eexists.
+  - split; [vm_compute; reflexivity|]. split; [vm_compute; reflexivity|]. split; [vm_compute; reflexivity|].
+    split; [upv_wit|]. split; [rep_wit|]. split; [vm_compute; lia|]. split; [vm_compute; lia|].
+    split; [eexists; split; vm_compute; reflexivity | constructor].
+  - split; [vm_compute; reflexivity|]. split; [vm_compute; reflexivity|]. split; [vm_compute; reflexivity|].
+    split; [upv_wit|]. split; [rep_wit|]. split; [vm_compute; lia|]. split; [vm_compute; lia|].
+    split; [eexists; split; vm_compute; reflexivity | constructor].
+Qed.
+
+(* instruction 37: main's ReadLocalVar 2 (x = 6, after inc ran); instruction 40: main's SetLocalVar 2 (x := 16) *)
+Example C06_ex_rep_local_hyps :
+  (opcode_at sim_program (sim_ip 37) = 20%N /\ op_u32 sim_program (sim_ip 37 + 1) = Some 2%N /\
+   top_offset (sim_st 37) = Some 0 /\ rep K_wit R_open 3 [RefSem.VInt 6] (sim_st 37) /\
+   R_open 0 = Some (LSlot (0 + N.to_nat 2)) /\ S (scount (sim_st 37)) < cap (sim_st 37)) /\
+  (opcode_at sim_program (sim_ip 40) = 19%N /\ op_u32 sim_program (sim_ip 40 + 1) = Some 2%N /\
+   top_offset (sim_st 40) = Some 0 /\ rep K_wit R_open 3 [RefSem.VInt 6] (sim_st 40) /\
+   3 < scount (sim_st 40) /\ scount (sim_st 40) < cap (sim_st 40) /\
+   R_open 0 = Some (LSlot (0 + N.to_nat 2)) /\
+   vrel K_wit (RefSem.VInt 16) (sraw_get (sim_st 40) (scount (sim_st 40) - 1))).
+Proof.
+  split.
+  - split; [vm_compute; reflexivity|]. split; [vm_compute; reflexivity|]. split; [vm_compute; reflexivity|].
+    split; [rep_wit|]. split; [reflexivity | vm_compute; lia].
+  - split; [vm_compute; reflexivity|]. split; [vm_compute; reflexivity|]. split; [vm_compute; reflexivity|].
+    split; [rep_wit|]. split; [vm_compute; lia|]. split; [vm_compute; lia|]. split; [reflexivity|].
+    vm_compute. constructor.
+Qed.
+
+(* instruction 43: the CloseUpvalue 2 at the end of the Repeat body; the cell of x moves from slot 2 into object 1 *)
+Example C06_ex_rep_close_upvalue_hyps :
+  opcode_at sim_program (sim_ip 43) = 46%N /\ op_u32 sim_program (sim_ip 43 + 1) = Some 2%N /\
+  top_offset (sim_st 43) = Some 0 /\ vm_ok (sim_st 43) /\ open_list (sim_st 43) [(1%N, 2)] /\
+  rep K_wit R_open 3 [RefSem.VInt 16] (sim_st 43) /\ 0 + N.to_nat 2 <= 3 /\
+  close_map (0 + N.to_nat 2) [(1%N, 2)] R_open 0 = R_closed 0.
+Proof.
+  split; [vm_compute; reflexivity|]. split; [vm_compute; reflexivity|]. split; [vm_compute; reflexivity|].
+  split; [apply sim_st_vm_ok|]. split; [apply chain_of_sound with (fuel := 3); vm_compute; reflexivity|].
+  split; [rep_wit|]. split; [vm_compute; lia | reflexivity].
+Qed.
+
+(* instruction 14: the first capture of x (a new upvalue object is created); instruction 19: the sibling's capture
+   (the open upvalue of slot 2 is found and shared) *)
+Example C06_ex_rep_register_upvalue_hyps :
+  (exists s1, opcode_at sim_program (sim_ip 14) = 45%N /\
+     read_le (p_code sim_program) (sim_ip 14 + 1) 1 = Some 2%N /\
+     read_le (p_code sim_program) (sim_ip 14 + 1 + 1) 1 = Some 1%N /\ 1%N <> 0%N /\
+     spop (sim_st 14) = (s1, VObj 0) /\ hget (Vm.st_heap s1) 0 = Some (OClo 4232050211 0 []) /\
+     top_offset s1 = Some 0 /\ vm_ok (sim_st 14) /\ open_list (sim_st 14) [] /\
+     rep K_wit R_open 3 [RefSem.VInt 5] (sim_st 14) /\ 3 < scount (sim_st 14) /\
+     R_open 0 = Some (LSlot (0 + N.to_nat 2))) /\
+  (exists s1, opcode_at sim_program (sim_ip 19) = 45%N /\
+     read_le (p_code sim_program) (sim_ip 19 + 1) 1 = Some 2%N /\
+     read_le (p_code sim_program) (sim_ip 19 + 1 + 1) 1 = Some 1%N /\ 1%N <> 0%N /\
+     spop (sim_st 19) = (s1, VObj 2) /\ hget (Vm.st_heap s1) 2 = Some (OClo 1604228800 0 []) /\
+     top_offset s1 = Some 0 /\ vm_ok (sim_st 19) /\ open_list (sim_st 19) [(1%N, 2)] /\
+     rep K_wit R_open 3 [RefSem.VInt 5] (sim_st 19) /\ 3 < scount (sim_st 19) /\
+     R_open 0 = Some (LSlot (0 + N.to_nat 2))).
+Proof.
+  split; eexists.
+  - split; [vm_compute; reflexivity|]. split; [vm_compute; reflexivity|]. split; [vm_compute; reflexivity|].
+    split; [discriminate|]. split; [vm_compute; reflexivity|]. split; [vm_compute; reflexivity|].
+    split; [vm_compute; reflexivity|]. split; [apply sim_st_vm_ok|].
+    split; [apply chain_of_sound with (fuel := 3); vm_compute; reflexivity|].
+    split; [rep_wit|]. split; [vm_compute; lia | reflexivity].
+  - split; [vm_compute; reflexivity|]. split; [vm_compute; reflexivity|]. split; [vm_compute; reflexivity|].
+    split; [discriminate|]. split; [vm_compute; reflexivity|]. split; [vm_compute; reflexivity|].
+    split; [vm_compute; reflexivity|]. split; [apply sim_st_vm_ok|].
+    split; [apply chain_of_sound with (fuel := 3); vm_compute; reflexivity|].
+    split; [rep_wit|]. split; [vm_compute; lia | reflexivity].
+Qed.
+
+(* instruction 28: the Return of inc, called while x is alive (frame offset 3 = top: no cell lives in the frame) *)
+Example C06_ex_rep_return_hyps :
+  exists fr prev rest,
+    opcode_at sim_program (sim_ip 28) = 22%N /\ st_calls (sim_st 28) = fr :: prev :: rest /\
+    vm_ok (sim_st 28) /\ open_list (sim_st 28) [(1%N, 2)] /\
+    rep K_wit R_open 3 [RefSem.VInt 6] (sim_st 28) /\ 3 < scount (sim_st 28) /\ N.to_nat (fr_off fr) <= 3.
+Proof.
+  do 3 eexists. split; [vm_compute; reflexivity|]. split; [vm_compute; reflexivity|]. split; [apply sim_st_vm_ok|].
+  split; [apply chain_of_sound with (fuel := 3); vm_compute; reflexivity|].
+  split; [rep_wit|]. split; [vm_compute; lia | vm_compute; lia].
+Qed.
